@@ -1,3 +1,30 @@
-From Coq Require Import List. Require Import M_Write.
-Theorem placeholder_C07 : True. Proof. exact I. Qed.
-Print Assumptions placeholder_C07.
+(* C07 - written NodeSets are well-formed, schema-valid and self-contained.
+   C07_partial: proved are (1) the markup theorem - the writer's spelling of ANY element tree with well-formed names parses
+   back to that tree whatever characters its text and attribute values contain, when they go through escape / escape_attr;
+   (2) the self-containedness of the header (first Uri = ModelUri = the namespace that was written).  That the generator's
+   text IS such a spelling holds only where the code escapes: the positions where it does not (quotes in NodeId/BrowseName/
+   SymbolicName, raw DataType/ParentNodeId/MethodDeclarationId, URIs) are recorded findings.  Schema validity is decided by
+   the oracle (lxml.XMLSchema with the bundled UANodeSet.xsd on every written document), not by a theorem. *)
+From Coq Require Import String Ascii List Bool Arith NArith ZArith.
+Require Import PyStr PyInt Sexp Xml M_C09 M_C08 Ns Table M_Parse M_Write T_Write.
+Import ListNotations.
+Open Scope char_scope.
+
+Theorem C07_markup_never_broken : forall q t, tree_ok t = true -> has CR (spell_treeq q t) = false -> xparse (spell_treeq q t) = Some t.
+Proof. exact xparse_spellq. Qed.
+Theorem C07_text_escape : forall s, unescape (escape s) = Some s.
+Proof. exact unescape_escape. Qed.
+Theorem C07_attribute_escape : forall s, unescape (escape_attr s) = Some s.
+Proof. exact unescape_escape_attr. Qed.
+Theorem C07_escaped_text_has_no_markup : forall c s, (c = "<"%char \/ c = ">"%char) -> has c (escape s) = false.
+Proof. exact escape_clean. Qed.
+Theorem C07_self_contained_header : forall p w d, write_doc p w = Ok d ->
+  exists u1 rest, d_uris d = Some (u1 :: rest) /\
+  (exists attrs req, d_models d = Some [{| me_attrs := (lit "ModelUri", u1) :: attrs; me_required := req |}]) /\ d_aliases d = Some [].
+Proof. exact write_doc_header. Qed.
+
+Print Assumptions C07_markup_never_broken.
+Print Assumptions C07_text_escape.
+Print Assumptions C07_attribute_escape.
+Print Assumptions C07_escaped_text_has_no_markup.
+Print Assumptions C07_self_contained_header.
